@@ -152,6 +152,17 @@ def run(ctx, ck) -> None:
         ck.expect('D4', not leaks, fn, f'{cls.name}.mv: the per-leaf function shares no mutable state between leaves',
                   f'{cls.name}.mv: {leaks[0] if leaks else ""}: the result for one leaf depends on the leaves processed before it (e.g. a cache keyed without the leaf rank returns the layout of another leaf)', instance=f'{cls.name} leaf independence')
 
+    # ------------------------------------------------------------------ D6 dense form (schema and shared-helper rule of C04.L2)
+    from . import c04
+
+    sub = type(ck)(ck.pid)
+    c04.run(ctx, sub)
+    for o in sub.obs:
+        if o.rule.endswith('L2') and 'furax._base.diagonal.' in o.construct:
+            o.rule = f'{ck.pid}.D6'
+            ck.obs.append(o)
+    ck.floor('D6', sum(1 for o in ck.obs if o.rule.endswith('D6')), 3, 'dense-form obligations of the diagonal family')
+
     # ------------------------------------------------------------------ D5 inverse
     r = table.resolve(diag, 'inverse')
     ok, why = c06.s_diagonal(ctx, table, diag, r) if r is not None and isinstance(r.node, ast.FunctionDef) else (False, 'inverse vanished')
